@@ -151,6 +151,26 @@ def history_check(cases, rng):
         b = run(hist[::-1])[::-1]
         if any(not np.array_equal(x, y) for x, y in zip(a, b)):
             bad.append(("C20.history-independent", dict(n=len(hist)), None, None, [dict(shape=c["shape"], units=c["units"], p=c["p"]) for c in hist]))
+    # wavelength grids of the same length and the same end points but different interior samples, one after the other
+    # in one process: the law is pointwise in the wavelength (flux / irradiance proportional to lambda), so for the same
+    # spectrum the two answers are in the ratio of the two grids, whatever was converted before
+    for n in (3, 9, 16):
+        lamA = np.linspace(300.0, 700.0, n)
+        lamB = lamA.copy()
+        lamB[1:-1] += (rng.random() * 0.5 + 0.25) * (lamA[1] - lamA[0]) * np.sin(np.arange(1, n - 1) * 1.7)
+        lamB = np.sort(lamB)
+        spec = np.linspace(1.0, 2.0, n)
+        for order in ((lamA, lamB), (lamB, lamA)):
+            try:
+                f = [np.asarray(getattr(x, "magnitude", x), float) for x in (dreye.irr2flux(spec.copy(), l.copy(), return_units=False) for l in order)]
+                g = [np.asarray(getattr(x, "magnitude", x), float) for x in (dreye.flux2irr(spec.copy(), l.copy(), return_units=False) for l in order)]
+            except Exception as ex:
+                bad.append(("C20.no-error", dict(probe="grid-twins", exc=type(ex).__name__), None, repr(ex)[:200], []))
+                continue
+            if np.max(np.abs(f[1] / f[0] - order[1] / order[0])) > 1e-12:
+                bad.append(("C20.history-independent", dict(probe="grid-twins", fn="irr2flux", n=n), (order[1] / order[0]).tolist(), (f[1] / f[0]).tolist(), []))
+            if np.max(np.abs(g[1] / g[0] - order[0] / order[1])) > 1e-12:
+                bad.append(("C20.history-independent", dict(probe="grid-twins", fn="flux2irr", n=n), (order[0] / order[1]).tolist(), (g[1] / g[0]).tolist(), []))
     return bad
 
 
